@@ -397,7 +397,7 @@ func init() {
 				}
 			}
 		},
-		Budget: map[string]time.Duration{"quick": 100 * time.Second, "thorough": 25 * time.Minute}}
+		Budget: map[string]time.Duration{"quick": 200 * time.Second, "thorough": 25 * time.Minute}}
 }
 
 func hasHugeIndex(ops []r69.Op) bool {
